@@ -153,7 +153,7 @@ func (p *Pigeon) Tick() {
 				}
 				k := p.V.Eth[id]
 				var traits []string
-				if b.BCfg.MevVals[p.V.Idx] {
+				if b.BCfg.MevVals[p.V.Idx] && (b.BCfg.MevOnlyOn[p.V.Idx] == "" || b.BCfg.MevOnlyOn[p.V.Idx] == id) {
 					traits = []string{valsettypes.PIGEON_TRAIT_MEV}
 				}
 				list = append(list, &valsettypes.ExternalChainInfo{ChainType: "evm", ChainReferenceID: id, Address: k.Addr.Hex(), Pubkey: k.Addr.Bytes(), Traits: traits})
